@@ -13,6 +13,8 @@ pinned=$(/venv/bin/python -m pytest -ra -q -p no:cacheprovider --timeout=900 --c
 echo "demo clean=$clean changed=$changed pinned: $pinned"
 cd /verif
 for c in "$@"; do
-  res=$(VERIF_REPO="$W" timeout 900 ./check "$c" 2>&1); rc=$?; out=$(echo "$res" | grep -c "^VIOLATION"); inp=$(echo "$res" | grep "^VIOLATION" | head -1)
+  # the run below is against a PATCHED tree: keep the committed evidence file (written by runs against /repo itself)
+  bak=$(mktemp); cp "evidence/$c.json" "$bak" 2>/dev/null
+  res=$(VERIF_REPO="$W" timeout 900 ./check "$c" 2>&1); rc=$?; cp "$bak" "evidence/$c.json" 2>/dev/null; rm -f "$bak"; out=$(echo "$res" | grep -c "^VIOLATION"); inp=$(echo "$res" | grep "^VIOLATION" | head -1)
   echo "  check $c: violations=$out :: $inp$([ $rc -gt 1 ] && echo " [exit $rc: no verdict]")"
 done
